@@ -37,7 +37,7 @@ Print Assumptions C03_progress.
 (* non-vacuity: a table-instantiated callee record without escapes, and a hostile stream answered 400 *)
 Definition ex_tables : tables := {|
   t_start := [(X "474554202f20485454502f312e31", SlOk {| p11 := true; nobody := true |})];
-  t_hdrs := []; t_decode := []; t_2047 := []; t_trailer := [] |}.
+  t_hdrs := []; t_decode := []; t_2047 := []; t_trailer := []; t_connect := [] |}.
 Example C03_example :
   snd (parse real (callees_of ex_tables) Server init (X "474554202f20485454502f312e310d0a4e6f436f6c6f6e0d0a0d0a")) = Some (EHttp 400).
 Proof. vm_compute. reflexivity. Qed.
